@@ -459,18 +459,34 @@ pub fn strip_attributes(input: TokenStream) -> TokenStream {
     for attr in &mut item.attrs {
         if let syn::Meta::List(meta) = &mut attr.meta {
             if meta.path.is_ident("derive") {
-                let mut tokens =
-                    std::mem::replace(&mut meta.tokens, TokenStream::new()).into_iter();
+                // The derive list is a comma separated list of paths (`Debug`, `serde::Serialize`,
+                // ...): keep every entry as it is, except for the `Logos` derive itself.
+                let tokens = std::mem::replace(&mut meta.tokens, TokenStream::new());
+                let mut entry: Vec<TokenTree> = Vec::new();
+                let mut kept: Vec<Vec<TokenTree>> = Vec::new();
 
-                while let Some(TokenTree::Ident(ident)) = tokens.next() {
-                    let punct = tokens.next();
-
-                    if ident == "Logos" {
-                        continue;
+                let mut flush = |entry: &mut Vec<TokenTree>| {
+                    let is_logos = matches!(entry.last(), Some(TokenTree::Ident(ident)) if ident == "Logos");
+                    if !entry.is_empty() && !is_logos {
+                        kept.push(std::mem::take(entry));
                     }
+                    entry.clear();
+                };
 
-                    meta.tokens.extend([TokenTree::Ident(ident)]);
-                    meta.tokens.extend(punct);
+                for tt in tokens {
+                    if crate::util::is_punct(&tt, ',') {
+                        flush(&mut entry);
+                    } else {
+                        entry.push(tt);
+                    }
+                }
+                flush(&mut entry);
+
+                for (idx, entry) in kept.into_iter().enumerate() {
+                    if idx > 0 {
+                        meta.tokens.extend(quote!(,));
+                    }
+                    meta.tokens.extend(entry);
                 }
             }
         }
